@@ -54,6 +54,26 @@ PROPS = {
                       'definition; complete enumeration of that lattice, nothing sampled',
         'level_note': 'holds for the lattice values only; tolerance formula stated in evidence; compilers, libm and Eigen trusted',
     },
+    'C15': {
+        'sources': [],
+        'harness': 'c15_wrapgrid.cpp',
+        'flavour': 'asan',
+        'level': 'model_checking',
+        'engine': 'sequence',
+        'rule': 'explicit-state search over the real WrappableGrid<int,2|3> with a window model in lock-step. S1: BFS to '
+                'fixpoint over index-offset states, every offset vector from every state, all cells refilled with unique '
+                'tags before each translation. S2: all translation sequences up to the stated depth, interleaved with '
+                '{no write, single write, full rewrite}, fresh or default empty value, canonical states (offsets + value '
+                'pattern up to renaming) de-duplicated. evaluation = one translate compared cell by cell; non-trivial = '
+                'the translation both keeps and blanks cells (S1) or is a second or later translation (S2).',
+        'assumptions': ['cell type int (the grid only copies values)', 'states are (impl offsets, model accumulated offset mod size[, value pattern])'],
+        'tiers': {'quick': {'deadline': 300}, 'thorough': {'deadline': 3000, 'case_timeout': 600}},
+        'technique': 'explicit-state model checking of the implementation: BFS over operation sequences to fixpoint / stated depth with a reference window model in lock-step',
+        'level_text': 'all reachable index-offset states (fixpoint) with every offset from every state, and every '
+                      'translation/write sequence up to depth 3 on all grid sizes the property names, each step compared '
+                      'cell by cell with a window-over-unbounded-map model on the real object',
+        'level_note': 'bounded: grid sizes and offsets as listed in evidence bounds; int cells; ASan/UBSan clean on every execution',
+    },
 }
 
 ENGINES = [
